@@ -720,6 +720,53 @@ func RenameSymbols(r *rng.R, g *gram.Grammar) {
 	}
 }
 
+// ErrorNameClashGrammar: a parser rule may be called ERROR (only token names
+// are reserved). Next to @error terms under the same sugar (ERROR* and @error*,
+// ERROR+ and @error+, ERROR? and @error?) two different symbols, a rule and the error terminal, carry one name, and
+// the helper rules generated for them must not be mistaken for each other.
+func ErrorNameClashGrammar(r *rng.R) *gram.Grammar {
+	g := &gram.Grammar{}
+	for i := 0; i < 6; i++ {
+		g.Tokens = append(g.Tokens, gram.Token{Name: tokNames[i], Lit: string(rune('a' + i))})
+	}
+	perm := r.Perm(6)
+	tk := func(i int) gram.Term { return gram.Term{Ref: gram.Ref{Kind: gram.KTok, Idx: perm[i]}} }
+	sugar := []gram.Sugar{gram.Star, gram.Plus, gram.Opt}[r.Intn(3)] // @list(@error, S) is not accepted by lox
+	mk := func(ref gram.Ref) gram.Term {
+		t := gram.Term{Ref: ref, Sugar: sugar}
+		if sugar == gram.List {
+			t.Sep = gram.Ref{Kind: gram.KTok, Idx: perm[5]}
+		}
+		return t
+	}
+	ruleT := mk(gram.Ref{Kind: gram.KRule, Idx: 1})
+	errT := mk(gram.Ref{Kind: gram.KErr})
+	errRule := gram.Rule{Name: "ERROR", Prods: []gram.Prod{P(tk(3), tk(3))}}
+	if r.Chance(1, 2) {
+		errRule.Prods = append(errRule.Prods, P(tk(4)))
+	}
+	switch r.Intn(3) {
+	case 0:
+		// both in one production
+		first, second := ruleT, errT
+		if r.Chance(1, 2) {
+			first, second = errT, ruleT
+		}
+		g.Rules = []gram.Rule{{Name: "s", Prods: []gram.Prod{P(tk(0), first, tk(1), second, tk(2))}}, errRule}
+	case 1:
+		// in two alternatives of one rule
+		g.Rules = []gram.Rule{{Name: "s", Prods: []gram.Prod{P(tk(0), ruleT, tk(1)), P(tk(2), errT, tk(1))}}, errRule}
+	default:
+		// in two rules
+		g.Rules = []gram.Rule{
+			{Name: "s", Prods: []gram.Prod{P(tk(0), ruleT, gram.Term{Ref: gram.Ref{Kind: gram.KRule, Idx: 2}})}},
+			errRule,
+			{Name: "tail", Prods: []gram.Prod{P(tk(1), errT, tk(2))}},
+		}
+	}
+	return g
+}
+
 // ErrorContextsGrammar: a rule with an @error alternative used in two or
 // three contexts that are followed by different tokens (bare, A x B, C x D, as
 // elements of a list). LALR(1) merges the states after the error production,
